@@ -3,8 +3,9 @@
    parseExpressions, evaluate, GetExpressionValue, evaluateExpression, isEqual)
    and of the typed arithmetic of Include/QExpression.hpp, AFTER the repairs
    findings/D1_precedence_after_recursion.patch (/repo d87efe1), findings/D14_remainder_by_zero.patch
-   (/repo 8e23fd8), the lead's D47 (/repo 3d5d94b: x % -1 = 0 without dividing) and D80 (/repo 4703e54:
-   getOperation's two-character look-ahead is bounded by the end of the expression).
+   (/repo 8e23fd8), the lead's D47 (/repo 3d5d94b: x % -1 = 0 without dividing), D80 (/repo 4703e54:
+   getOperation's two-character look-ahead is bounded by the end of the expression) and
+   findings/D90_natural_compare_signed.patch (whole numbers are compared by value).
    Definitions only (no proofs).  The second half is the SPECIFICATION:
    expression trees, textbook precedence climbing ([std_tree]) and two
    evaluators of trees: [tree_eval] (same typed arithmetic, used by the
@@ -250,15 +251,30 @@ Definition q_bit (f : N -> N -> N) (l r : qval) : outcome qval :=
   | _, _ => Err (EUnsupported 1)
   end.
 
-(* QExpression::operator>=, >, <=, <, == : a natural operand is read through
-   Value.Number.Integer (signed view) unless the other side is real *)
+(* QExpression::compareWhole (fix findings/D90): -1, 0 or 1 -- a Natural or Integer against a
+   Natural or Integer BY VALUE: a negative Integer is below every Natural, otherwise the 64 bits
+   compare as unsigned (two negatives as signed) *)
+Definition whole_negative (v : qval) : bool := match v with QInt a => (signed a <? 0)%Z | _ => false end.
+Definition whole_bits (v : qval) : N := match v with QNat a | QInt a => a | _ => 0 end.
+Definition compare_whole (l r : qval) : comparison :=
+  let ln := whole_negative l in
+  let rn := whole_negative r in
+  if negb (Bool.eqb ln rn) then (if ln then Lt else Gt)
+  else if ln then (signed (whole_bits l) ?= signed (whole_bits r))%Z
+  else (whole_bits l ?= whole_bits r).
+Definition cmp_int (c : comparison) : Z := match c with Lt => (-1)%Z | Eq => 0%Z | Gt => 1%Z end.
+(* QExpression::wholeToReal *)
+Definition whole_to_real (v : qval) : spec_float :=
+  match v with QNat a => d_of_nat a | QInt a => d_of_int a | _ => fzero end.
+
+(* QExpression::operator>=, >, <=, <, == :  compareWhole(right) OP 0 for two whole numbers,
+   the doubles otherwise *)
 Definition q_cmp (ci : Z -> Z -> bool) (cf : spec_float -> spec_float -> bool) (l r : qval) : outcome bool :=
   match l, r with
   | QNat a, QReal y => Ok (cf (d_of_nat a) y)
-  | QNat a, QNat b | QNat a, QInt b => Ok (ci (signed a) (signed b))
   | QInt a, QReal y => Ok (cf (d_of_int a) y)
-  | QInt a, QNat b | QInt a, QInt b => Ok (ci (signed a) (signed b))
-  | QReal x, QNat b | QReal x, QInt b => Ok (cf x (d_of_int b))
+  | QNat _, QNat _ | QNat _, QInt _ | QInt _, QNat _ | QInt _, QInt _ => Ok (ci (cmp_int (compare_whole l r)) 0%Z)
+  | QReal x, QNat _ | QReal x, QInt _ => Ok (cf x (whole_to_real r))
   | QReal x, QReal y => Ok (cf x y)
   | _, _ => Err (EUnsupported 1)
   end.
@@ -339,7 +355,13 @@ Definition numeral (s : list N) : numres :=
         let '(ip, ni, r1) := take_digits body 0 0 in
         (* leading zero only for "0" itself: "00", "01" are not numbers ("Leading zero.") *)
         if (c1 =? dg_Zero) && negb (Nat.eqb ni 1) then NotNum
-        else if Nat.ltb 18 ni then NumUnsupported
+        else if Nat.ltb 18 ni then
+          (* 19 or 20 digits: a Natural as long as it is below 2^64 (beyond that StringToNumber answers a real) *)
+          (match r1 with
+           | [] => if neg then (if Nat.eqb ni 19 && (ip <? two63) then NumInt (neg64 ip) else NumUnsupported)
+                   else if Nat.leb ni 20 && (ip <? two64) then NumNat ip else NumUnsupported
+           | _ => NumUnsupported
+           end)
         else match r1 with
         | [] => if neg then (if ip =? 0 then NumUnsupported else NumInt (neg64 ip)) else NumNat ip
         | c2 :: r2 =>
@@ -867,6 +889,10 @@ Definition q_is_double (n : Z) (d : positive) : bool :=
 Definition mk_real (n : Z) (d : positive) (ex : bool) : souts :=
   let '(n', d') := q_reduce n d in SOk (SVReal n' d') (ex && q_is_double n' d').
 Definition mk_int (z : Z) (ex : bool) : souts := if fits63 z then SOk (SVInt z) ex else SOutside 1.
+(* a Natural operand (literal or Value): anywhere below 2^64.  Above 2^63 it is judged only as an
+   operand of a comparison, of && / ||, of == / != or as the whole expression (see [s_arith]) *)
+Definition mk_nat (n : N) : souts := if n <? two64 then SOk (SVInt (Z.of_N n)) true else SOutside 1.
+Definition wide_int (v : sval) : bool := match v with SVInt z => negb (fits63 z) | _ => false end.
 
 (* exact value of a binary64 *)
 Definition q_of_sf (f : spec_float) : option (Z * positive) :=
@@ -896,7 +922,7 @@ Definition snumeral (s : list N) : option souts :=      (* None = not a numeral 
         let sg (z : Z) := if neg then (- z)%Z else z in
         if (c1 =? dg_Zero) && negb (Nat.eqb ni 1) then Some (SOutside 3) else
         match r1 with
-        | [] => Some (mk_int (sg (Z.of_N ip)) true)
+        | [] => Some (if neg then mk_int (sg (Z.of_N ip)) true else mk_nat ip)
         | c2 :: r2 =>
           let '(m, nf, r3) := if c2 =? dg_Dot then (let '(m, n, r) := take_digits r2 ip 0 in (m, n, r)) else (ip, O, r1) in
           match r3 with
@@ -924,7 +950,7 @@ Definition snumeral (s : list N) : option souts :=      (* None = not a numeral 
 (* the numeric reading of a Value (numbers; true = 1, false = null = 0; numeric strings) *)
 Definition snumber_of_value (v : vval) : souts :=
   match v with
-  | EvNat n => mk_int (Z.of_N n) true
+  | EvNat n => mk_nat n
   | EvInt b => mk_int (signed b) true
   | EvReal f => match q_of_sf f with Some (n, d) => mk_real n d true | None => SOutside 1 end
   | EvTrue => SOk (SVInt 1) true
@@ -950,7 +976,12 @@ Definition sbool (b : bool) (ex : bool) : souts := SOk (SVInt (if b then 1 else 
 Definition as_trunc (v : sval) : option Z :=
   match v with SVInt z => Some z | SVReal n d => Some (q_trunc n d) | SVText _ _ => None end.
 
+Definition s_is_arith (op : N) : bool :=
+  (op =? op_Addition) || (op =? op_Subtraction) || (op =? op_Multiplication) || (op =? op_Division) ||
+  (op =? op_Remainder) || (op =? op_Exponent) || (op =? op_BitwiseAnd) || (op =? op_BitwiseOr).
 Definition s_arith (op : N) (a b : sval) (ex : bool) : souts :=
+  (* arithmetic on a Natural from 2^63 up is outside the property's no-overflow domain *)
+  if s_is_arith op && (wide_int a || wide_int b) then SOutside 1 else
   match as_q a, as_q b with
   | Some (an, ad), Some (bn, bd) =>
     let real := is_real a || is_real b in
@@ -1030,7 +1061,7 @@ Definition s_equal (neq : bool) (a b : sval) (ex : bool) : souts :=
 (* an operand in the context of its parent operator ([ctx] = NoOp: it is the whole (sub)expression) *)
 Definition s_leaf (e : env) (ctx : N) (l : sleafv) : souts :=
   match l with
-  | SLNat n => mk_int (Z.of_N n) true
+  | SLNat n => mk_nat n
   | SLInt z => mk_int z true
   | SLDec n d => mk_real n d true
   | SLText s => if (ctx =? op_Equal) || (ctx =? op_NotEqual) then SOk (SVText s None) true else SOutside 2
